@@ -8,7 +8,8 @@ V == [k |-> "invoke", h |-> 0]
 P == [k |-> "prepend", h |-> 0]
 O(h) == [k |-> "owns", h |-> h]
 E == [k |-> "empty", h |-> 0]
-OpsSet == {A, V, P, E, O(1)} \cup {I(h) : h \in 1..2} \cup {R(h) : h \in 1..2}
+F == [k |-> "forEach", h |-> 0]
+OpsSet == {A, V, P, E, F, O(1)} \cup {I(h) : h \in 1..2} \cup {R(h) : h \in 1..2}
 Progs == {<<o>> : o \in OpsSet} \cup {<<o1, o2>> : o1 \in {A, R(1)}, o2 \in {V, R(1), I(1)}}
 ScenSet == [Threads -> Progs]
 Progs1 == {<<o>> : o \in OpsSet}
